@@ -21,7 +21,10 @@ RULE = (
     "halves carry identical (C2-type, possibly chiral) or mirrored (meso / "
     "achiral) decorations; graphs whose only stereo element is an "
     "AtropBond; achiral descriptors only; reaction graphs with several atom "
-    "and bond stereo changes. Oracle: (1) snapshot(g.enantiomer()) equals "
+    "and bond stereo changes; before the call the graph may be hashed / "
+    "compared / viewed, and descriptors of the sibling classes over the same "
+    "atom tuples may be compared and mirrored (process-level memos). "
+    "Oracle: (1) snapshot(g.enantiomer()) equals "
     "the model's enantiomer (atoms, bonds, attributes exact; every chiral "
     "descriptor, static or in any role of any change, atom- or bond-centred, "
     "equivalent to the inverted one; achiral ones untouched); (2) g is not "
@@ -78,7 +81,8 @@ def gen(data: bytes):
                         p_change=220)
         name = "reaction-changes"
     return {"fam": name, "a": S.shuffled_recipe(tp, m),
-            "warm": tp.pick([0, 0, 1, 2, 3])}
+            "warm": tp.pick([0, 0, 1, 2, 3]),
+            "sibling_use": tp.chance(110)}
 
 
 def shrink(case):
@@ -97,6 +101,8 @@ def check_case(ctx, case):
     s0 = snapshot(g, f"C06/{cls}/source")
     from vp import ops as O
     with guard(f"C06/{cls}/read-only-use-before"):
+        if case.get("sibling_use"):
+            O.sibling_use([d for *_, d in ma.all_descs()])
         O.pre_use(g, case.get("warm", 0))
     with guard(f"C06/{cls}/enantiomer"):
         e = g.enantiomer()
